@@ -214,11 +214,11 @@ var bytesPool = []bytesChoice{
 }
 
 var (
-	int32Pool  = []int64{0, 1, -1, 2, 10, 1000, math.MinInt32, math.MaxInt32, math.MaxInt32 - 1, -1000}
-	int64Pool  = []int64{0, 1, -1, 1000, 3000, math.MinInt64, math.MaxInt64, 1 << 31, 1 << 53, math.MaxInt64 / 1000000, math.MaxInt64/1000000 + 1, math.MaxInt64 / 1000000000, math.MaxInt64/1000000000 + 1, -62135596801, 253402300800}
-	uint32Pool = []uint64{0, 1, 5, 255, 256, 65535, 65536, math.MaxUint32}
-	uint64Pool = []uint64{0, 1, 1000, 1001, 1 << 31, 1 << 63, math.MaxUint64}
-	floatPool  = []float64{0, math.Copysign(0, -1), 1.5, -1, math.NaN(), math.Inf(1), math.Inf(-1), math.MaxFloat64, math.SmallestNonzeroFloat64, math.MaxFloat32, 90, 180, -91}
+	int32Pool  = []int64{math.MaxInt32, math.MinInt32, -1, 0, 1, math.MaxInt32 - 1, 2, 10, 1000, -1000}
+	int64Pool  = []int64{math.MaxInt64, math.MinInt64, -1, 0, math.MaxInt64/1000000000 + 1, math.MaxInt64/1000000 + 1, 1, math.MaxInt32, math.MaxInt64 / 1000000000, math.MaxInt64/1000000000 - 1, math.MaxInt64 / 1000000, math.MaxInt32 + 1, math.MinInt32 - 1, 1 << 53, 1000, 3000, -62135596801, 253402300800}
+	uint32Pool = []uint64{math.MaxUint32, 0, 1, 65536, 256, 255, 65535, 5}
+	uint64Pool = []uint64{math.MaxUint64, 0, 1 << 63, 1, 1001, 1000, 1 << 31}
+	floatPool  = []float64{math.NaN(), math.Inf(1), math.Inf(-1), math.MaxFloat64, math.Copysign(0, -1), 0, math.SmallestNonzeroFloat64, -1, 1.5, math.MaxFloat32, 90, 180, -91}
 )
 
 func intClass(v int64) string {
@@ -782,6 +782,160 @@ func profileFilter(r *rand.Rand) *hydrapb.FilterGroup {
 		{Operator: hydrapb.Relational_GREATER_THAN_OR_EQUAL, CompareValue: &hydrapb.TreasureFilter_Int64Val{Int64Val: 1}, TreasureKey: ptr("doc1"), BytesFieldPath: ptr("n")}}}
 }
 
+// ---- boundary sweep ------------------------------------------------------------------------
+
+// The first cases of every unit are not random: they walk (numeric or enum field of the valid
+// request) x (boundary value of its kind, most extreme first), one field per case, so that
+// every configuration-like number meets its extremes at every seed.
+var sweepPerMode, sweepGrpcOffset = 6, 6
+
+func boundaryValues(fd protoreflect.FieldDescriptor) []protoreflect.Value {
+	var out []protoreflect.Value
+	switch fd.Kind() {
+	case protoreflect.Int32Kind, protoreflect.Sint32Kind, protoreflect.Sfixed32Kind:
+		for _, v := range int32Pool {
+			out = append(out, protoreflect.ValueOfInt32(int32(v)))
+		}
+	case protoreflect.Int64Kind, protoreflect.Sint64Kind, protoreflect.Sfixed64Kind:
+		for _, v := range int64Pool {
+			out = append(out, protoreflect.ValueOfInt64(v))
+		}
+	case protoreflect.Uint32Kind, protoreflect.Fixed32Kind:
+		for _, v := range uint32Pool {
+			out = append(out, protoreflect.ValueOfUint32(uint32(v)))
+		}
+	case protoreflect.Uint64Kind, protoreflect.Fixed64Kind:
+		for _, v := range uint64Pool {
+			out = append(out, protoreflect.ValueOfUint64(v))
+		}
+	case protoreflect.FloatKind:
+		for _, v := range floatPool {
+			out = append(out, protoreflect.ValueOfFloat32(float32(v)))
+		}
+	case protoreflect.DoubleKind:
+		for _, v := range floatPool {
+			out = append(out, protoreflect.ValueOfFloat64(v))
+		}
+	case protoreflect.EnumKind:
+		for _, v := range []int32{math.MaxInt32, math.MinInt32, -1, int32(fd.Enum().Values().Len())} {
+			out = append(out, protoreflect.ValueOfEnum(protoreflect.EnumNumber(v)))
+		}
+	}
+	return out
+}
+
+// sweep applies combination k to the valid request; false when k is past the cross product.
+func sweep(root protoreflect.Message, k int) (string, bool) {
+	var all, sites []site
+	collectSites(root, "", 5, &all)
+	for _, s := range all {
+		if s.fd.IsList() || s.fd.IsMap() || s.fd.Message() != nil || lname(s.fd) == "islandid" {
+			continue
+		}
+		if len(boundaryValues(s.fd)) > 0 {
+			sites = append(sites, s)
+		}
+	}
+	if len(sites) == 0 {
+		return "", false
+	}
+	// top-level fields first
+	var ordered []site
+	for _, s := range sites {
+		if !strings.Contains(s.path, ".") {
+			ordered = append(ordered, s)
+		}
+	}
+	for _, s := range sites {
+		if strings.Contains(s.path, ".") {
+			ordered = append(ordered, s)
+		}
+	}
+	s := ordered[k%len(ordered)]
+	vals := boundaryValues(s.fd)
+	vi := k / len(ordered)
+	if vi >= len(vals) {
+		return "", false
+	}
+	s.m.Set(s.fd, vals[vi])
+	return fmt.Sprintf("%s=boundary(%v)", s.path, vals[vi].Interface()), true
+}
+
+// ---- follow-ups: requests that use what a request configured ---------------------------------
+
+type followUp struct {
+	Name  string
+	RPC   string
+	Msg   proto.Message
+	Sleep time.Duration             // a virtual idle period instead of a request
+	After func(o outcome) *followUp // one more request derived from this one's reply
+}
+
+// followUps returns the valid requests that exercise what the (accepted) request set up.
+func followUps(ri rpcInfo, gc *genCase, o outcome, w *world, idx int) []followUp {
+	if !o.OK || len(gc.Msgs) == 0 {
+		return nil
+	}
+	switch q := gc.Msgs[0].(type) {
+	case *hydrapb.RegisterSwampRequest:
+		return patternFollowUps(q.GetSwampPattern(), "RegisterSwamp", idx)
+	case *hydrapb.DeRegisterSwampRequest:
+		return patternFollowUps(q.GetSwampPattern(), "DeRegisterSwamp", idx)
+	case *hydrapb.LockRequest:
+		lr, ok := o.Resp.(*hydrapb.LockResponse)
+		if !ok || q.GetKey() == "" {
+			return nil
+		}
+		key := q.GetKey()
+		return []followUp{
+			{Name: "Heartbeat-after-Lock", RPC: "Heartbeat", Msg: &hydrapb.HeartbeatRequest{Ping: "p"}},
+			{Name: "Unlock-after-Lock", RPC: "Unlock", Msg: &hydrapb.UnlockRequest{Key: key, LockID: lr.GetLockID()}},
+			// whether the TTL already let go or the Unlock did: the key must be free again
+			{Name: "Lock-again-after-Unlock", RPC: "Lock", Msg: &hydrapb.LockRequest{Key: key, TTL: 1000}, After: func(o2 outcome) *followUp {
+				l2, ok := o2.Resp.(*hydrapb.LockResponse)
+				if !ok {
+					return nil
+				}
+				return &followUp{Name: "Unlock-again", RPC: "Unlock", Msg: &hydrapb.UnlockRequest{Key: key, LockID: l2.GetLockID()}}
+			}},
+		}
+	}
+	return nil
+}
+
+// patternFollowUps writes to, reads from, idles and re-reads a swamp that the pattern covers.
+func patternFollowUps(pattern, after string, idx int) []followUp {
+	p := strings.Split(pattern, "/")
+	if len(p) < 3 {
+		return nil
+	}
+	p = p[:3]
+	for i := range p {
+		if p[i] == "*" && i > 0 {
+			p[i] = fmt.Sprintf("fz%d", idx%7)
+		}
+	}
+	nm := strings.Join(p, "/")
+	if strings.HasPrefix(nm, "canary/") || len(nm) > 60000 {
+		return nil
+	}
+	is := safeIsland(nm)
+	set := func(k string) proto.Message {
+		return &hydrapb.SetRequest{Swamps: []*hydrapb.SwampRequest{{IslandID: is, SwampName: nm, CreateIfNotExist: true, Overwrite: true,
+			KeyValues: []*hydrapb.KeyValuePair{{Key: k, StringVal: ptr("v-" + k)}, {Key: k + "-n", Int64Val: ptr(int64(idx))}}}}}
+	}
+	get := &hydrapb.GetRequest{Swamps: []*hydrapb.GetSwamp{{IslandID: is, SwampName: nm, Keys: []string{"a", "b"}}}}
+	return []followUp{
+		{Name: "Set-after-" + after, RPC: "Set", Msg: set("a")},
+		{Name: "Get-after-" + after, RPC: "Get", Msg: get},
+		{Name: "idle", Sleep: 8 * time.Second},
+		{Name: "Set-after-idle-after-" + after, RPC: "Set", Msg: set("b")},
+		{Name: "Get-after-idle-after-" + after, RPC: "Get", Msg: proto.Clone(get)},
+		{Name: "Delete-after-" + after, RPC: "Delete", Msg: &hydrapb.DeleteRequest{Swamps: []*hydrapb.DeleteRequest_SwampKeys{{IslandID: is, SwampName: nm, Keys: []string{"a"}}}}},
+		{Name: "Count-after-" + after, RPC: "Count", Msg: &hydrapb.CountRequest{Swamps: []*hydrapb.CountRequest_SwampIdentifier{{IslandID: is, SwampName: nm}}}},
+	}
+}
+
 // ---- one generated case ---------------------------------------------------------------------
 
 type genCase struct {
@@ -802,7 +956,22 @@ func buildCase(ri rpcInfo, idx int, w *world, r *rand.Rand) *genCase {
 	seed := seedRequest(ri.Name, w, r)
 	x := r.IntN(100)
 	var msgs []proto.Message
+	local := idx % grpcIdxBase
+	k := -1
+	if local < sweepPerMode {
+		k = local
+		if idx >= grpcIdxBase {
+			k += sweepGrpcOffset
+		}
+	}
+	swept := false
+	if seed != nil && k >= 0 {
+		if lb, ok := sweep(seed[0].ProtoReflect(), k); ok {
+			gc.Style, gc.Labels, msgs, swept = "sweep", []string{lb}, seed, true
+		}
+	}
 	switch {
+	case swept:
 	case seed == nil || x < 15:
 		gc.Style = "generic"
 		n := 1
